@@ -47,6 +47,15 @@ import (
 type M = map[string]any
 
 const topicName = "T1"
+const topic2Name = "T2"
+
+// topicOf: messages whose name starts with 'n' travel on the second topic.
+func topicOf(name string) string {
+	if len(name) > 0 && name[0] == 'n' {
+		return topic2Name
+	}
+	return topicName
+}
 
 type scenario struct {
 	Cfg  M   `json:"cfg"`
@@ -210,7 +219,7 @@ func runScenario(t *testing.T, out *vh.Out, idx int, s scenario) {
 		idfn := gets(c, "idfn", "default")
 		strategy := gets(c, "strategy", "first")
 		router := gets(c, "router", "gossipsub")
-		topicv := getb(c, "topicv")
+		tv1, tv2, twoTopics := geti(c, "tv1", 0), geti(c, "tv2", 0), getb(c, "t2")
 		tmoMs := geti(c, "tmoMs", 20000)
 
 		d := &drv{gts: map[string]*gate{}, blk: map[string]chan struct{}{}, done: make(chan struct{}), deaf: getb(c, "deaf")}
@@ -223,12 +232,11 @@ func runScenario(t *testing.T, out *vh.Out, idx int, s scenario) {
 			return o
 		}
 		opts := []pubsub.Option{pubsub.WithValidateWorkers(workers), pubsub.WithValidateThrottle(gthr), pubsub.WithValidateQueueSize(qcap)}
-		ndef := nv
-		if topicv && nv > 0 {
-			ndef = nv - 1
-		}
-		for v := 1; v <= ndef; v++ {
-			opts = append(opts, pubsub.WithDefaultValidator(d.validator(v), valOpts(v)...))
+		// validators tv1 / tv2 are the validators of topic T1 / T2, all the others are default validators (registered first)
+		for v := 1; v <= nv; v++ {
+			if v != tv1 && v != tv2 {
+				opts = append(opts, pubsub.WithDefaultValidator(d.validator(v), valOpts(v)...))
+			}
 		}
 		if idfn == "content" {
 			opts = append(opts, pubsub.WithMessageIdFn(contentID))
@@ -239,9 +247,16 @@ func runScenario(t *testing.T, out *vh.Out, idx int, s scenario) {
 		if strategy == "last" {
 			opts = append(opts, pubsub.WithSeenMessagesStrategy(timecache.Strategy_LastSeen))
 		}
+		tsp := func() *pubsub.TopicScoreParams {
+			return &pubsub.TopicScoreParams{TopicWeight: 1, TimeInMeshQuantum: time.Second,
+				InvalidMessageDeliveriesWeight: -1, InvalidMessageDeliveriesDecay: 0.5}
+		}
+		topics := []string{topicName}
+		if twoTopics {
+			topics = append(topics, topic2Name)
+		}
 		wc := world.Config{Router: router, Score: true, Hosts: 7, Opts: opts,
-			TopicScore: map[string]*pubsub.TopicScoreParams{topicName: {TopicWeight: 1, TimeInMeshQuantum: time.Second,
-				InvalidMessageDeliveriesWeight: -1, InvalidMessageDeliveriesDecay: 0.5}},
+			TopicScore: map[string]*pubsub.TopicScoreParams{topicName: tsp(), topic2Name: tsp()},
 			Thresholds: &pubsub.PeerScoreThresholds{GossipThreshold: -1e9, PublishThreshold: -2e9, GraylistThreshold: -3e9,
 				AcceptPXThreshold: 1e9, OpportunisticGraftThreshold: 0}}
 		w := world.New(t, out, idx, wc, M{"ingest": c})
@@ -299,7 +314,7 @@ func runScenario(t *testing.T, out *vh.Out, idx int, s scenario) {
 				sort.Strings(names)
 				for _, n := range names {
 					if ps, ok := st.GS.Score.Peers[w.Fakes[n].ID()]; ok {
-						pen = append(pen, M{"p": n, "n": int(ps.Topics[topicName].InvalidMessageDeliveries)})
+						pen = append(pen, M{"p": n, "n": int(ps.Topics[topicName].InvalidMessageDeliveries + ps.Topics[topic2Name].InvalidMessageDeliveries)})
 					}
 				}
 			}
@@ -315,51 +330,63 @@ func runScenario(t *testing.T, out *vh.Out, idx int, s scenario) {
 			proto = "flood"
 		}
 		for _, p := range peers {
-			w.AddPeer(p, proto, "in", []string{topicName})
+			w.AddPeer(p, proto, "in", topics)
 		}
 		var topts []pubsub.TopicOpt
 		if idfn == "topic" {
 			topts = append(topts, pubsub.WithTopicMessageIdFn(contentID))
 		}
-		tp, err := w.NUT.Join(topicName, topts...)
-		if err != nil {
-			t.Fatalf("join: %v", err)
-		}
-		if topicv && nv > 0 {
-			if err := w.NUT.RegisterTopicValidator(topicName, d.validator(nv), valOpts(nv)...); err != nil {
-				t.Fatalf("register topic validator: %v", err)
-			}
-		}
-		for i := 1; i <= nsubs; i++ {
-			sub, err := tp.Subscribe()
+		handles := map[string]*pubsub.Topic{}
+		for ti, tn := range topics {
+			tp, err := w.NUT.Join(tn, topts...)
 			if err != nil {
-				t.Fatalf("subscribe: %v", err)
+				t.Fatalf("join: %v", err)
 			}
-			sname := vh.Sprintf("s%d", i)
-			d.wg.Add(1)
-			go func() {
-				defer d.wg.Done()
-				for {
-					msg, err := sub.Next(w.Ctx)
-					if err != nil {
-						return
-					}
-					if msg.ID != "" {
-						w.Names.MsgFromData(msg.ID, msg.GetData())
-					}
-					d.mu.Lock()
-					d.dlv = append(d.dlv, M{"sub": sname, "topic": topicName, "m": msgName(msg.GetData())})
-					d.mu.Unlock()
+			handles[tn] = tp
+			tv := tv1
+			if ti == 1 {
+				tv = tv2
+			}
+			if tv > 0 {
+				if err := w.NUT.RegisterTopicValidator(tn, d.validator(tv), valOpts(tv)...); err != nil {
+					t.Fatalf("register topic validator: %v", err)
 				}
-			}()
-		}
-		if relay {
-			if _, err := tp.Relay(); err != nil {
-				t.Fatalf("relay: %v", err)
+			}
+			for i := 1; i <= nsubs; i++ {
+				sub, err := tp.Subscribe()
+				if err != nil {
+					t.Fatalf("subscribe: %v", err)
+				}
+				sname := vh.Sprintf("s%d", i)
+				if ti == 1 {
+					sname = vh.Sprintf("u%d", i)
+				}
+				tn := tn
+				d.wg.Add(1)
+				go func() {
+					defer d.wg.Done()
+					for {
+						msg, err := sub.Next(w.Ctx)
+						if err != nil {
+							return
+						}
+						if msg.ID != "" {
+							w.Names.MsgFromData(msg.ID, msg.GetData())
+						}
+						d.mu.Lock()
+						d.dlv = append(d.dlv, M{"sub": sname, "topic": tn, "m": msgName(msg.GetData())})
+						d.mu.Unlock()
+					}
+				}()
+			}
+			if relay {
+				if _, err := tp.Relay(); err != nil {
+					t.Fatalf("relay: %v", err)
+				}
 			}
 		}
 		hnet.Settle(30 * time.Millisecond)
-		w.AddPeer("g1", proto, "in", []string{topicName})
+		w.AddPeer("g1", proto, "in", topics)
 		w.Guard()
 		w.Emit(M{"a": "setup"})
 
@@ -369,7 +396,7 @@ func runScenario(t *testing.T, out *vh.Out, idx int, s scenario) {
 			switch kind {
 			case "msg":
 				p, _ := a["p"].(string)
-				w.Do(M{"a": "msg", "p": p, "t": topicName, "m": m, "unsigned": !signed})
+				w.Do(M{"a": "msg", "p": p, "t": topicOf(m), "m": m, "unsigned": !signed})
 			case "rpc":
 				// ONE RPC whose Publish list carries several messages, possibly the same one more than once
 				p, _ := a["p"].(string)
@@ -381,7 +408,7 @@ func runScenario(t *testing.T, out *vh.Out, idx int, s scenario) {
 						name, _ := x.(string)
 						pm := w.Msg(name)
 						if pm == nil {
-							pm = f.NewMessage(name, topicName, 16, signed)
+							pm = f.NewMessage(name, topicOf(name), 16, signed)
 							w.RegMsg(name, pm)
 						}
 						list = append(list, pm)
@@ -442,7 +469,7 @@ func runScenario(t *testing.T, out *vh.Out, idx int, s scenario) {
 				d.wg.Add(1)
 				go func() {
 					defer d.wg.Done()
-					err := tp.Publish(w.Ctx, payload(m))
+					err := handles[topicOf(m)].Publish(w.Ctx, payload(m))
 					select {
 					case <-d.done:
 						return
